@@ -23,6 +23,7 @@ def run(rep, tier, replay):
     # every truncation point of a few valid files
     tfiles = sorted([it for it in valid + real if it.valid and 60 < len(it.data) < (400 if tier == "quick" else 3000)], key=lambda i: len(i.data))
     tfiles = tfiles[:2] + tfiles[-1:] if tier == "quick" else tfiles[:20]
+    tfiles += fmtsession.tail_files()       # every length residue mod 4 x last byte 0x00 / 0xFF (zero padding of the last word)
     ntr = 0
     for it in tfiles:
         tr = [t for t in fmtsession.truncation_items(it) if not t.valid]
